@@ -146,6 +146,30 @@ def h_setters(ctx, order, idw2, seqw2):
     ctx.holds("decode of the new octets == the updated header", e is None and sym_and(u == h, u.pack() == ctx.bytes_of(ref)), exc_name(e))
 
 
+def h_default_conf(ctx):
+    """the library's own ready-made configuration (PduConfig.default()): three independent one-octet fields, defaults for the
+    flags; fields changed in place, two configurations independent of each other"""
+    conf, other = PduConfig.default(), PduConfig.default()
+    src, seq, dst = ctx.int("src", 0, 255), ctx.int("seq", 0, 255), ctx.int("dst", 0, 255)
+    ptype, segm, dlen = ctx.flag("ptype"), ctx.flag("segmeta"), ctx.int("dlen", 0, 65535)
+    h = PduHeader(ptype, segm, dlen, conf)
+    v0 = dict(src=0, dst=0, seq=0, mode=0, direction=0, segctrl=0, crc=0, large=0, idw=1, seqw=1)
+    ctx.holds("default configuration packs to the reference layout", h.pack() == ctx.bytes_of(ref_header(v0, ptype, segm, dlen)))
+    conf.source_entity_id.value = src
+    conf.transaction_seq_num.value = seq
+    conf.dest_entity_id.value = dst
+    ctx.holds("default configuration, fields assigned in place: reference layout of the three values",
+              h.pack() == ctx.bytes_of(ref_header(dict(v0, src=src, seq=seq, dst=dst), ptype, segm, dlen)))
+    ctx.holds("another default configuration is unaffected",
+              PduHeader(ptype, segm, dlen, other).pack() == ctx.bytes_of(ref_header(v0, ptype, segm, dlen)))
+    e, u = call(PduHeader.unpack, h.pack())
+    ctx.holds("decoded: the three values", e is None and sym_and(u.source_entity_id.value == src, u.transaction_seq_num.value == seq,
+                                                                u.dest_entity_id.value == dst), exc_name(e))
+    em = PduConfig.empty()
+    ctx.holds("PduConfig.empty(): three distinct field objects", em.source_entity_id is not em.dest_entity_id
+              and em.source_entity_id is not em.transaction_seq_num and em.dest_entity_id is not em.transaction_seq_num)
+
+
 def h_refused_assignment(ctx):
     """a refused data-field length leaves the header as it was"""
     conf, v = sym_conf(ctx, 2, 1)
@@ -185,6 +209,7 @@ def cases(tier):
         cs.append(Case("decode-n%d" % n, "decode", h_decode, dict(n=n), bounds="every octet string of length %d" % n,
                        must_reach=(["reach:rejected"] if n >= 4 else []) + (["reach:accepted"] if n >= 7 else [])))
     cs.append(Case("refuse-datalen", "refuse", h_refuse_len, {}, bounds="data-field length 0..2^64"))
+    cs.append(Case("default-conf", "roundtrip", h_default_conf, {}, bounds="PduConfig.default(), all values of the three one-octet fields"))
     cs.append(Case("refused-assignment", "refuse", h_refused_assignment, {}, bounds="all field values, refused length 65536..2^40"))
     orders = [SETTERS, SETTERS[::-1], SETTERS[3:] + SETTERS[:3], ("segmeta", "pdu_type") + SETTERS[2:]]
     if tier == "thorough":
